@@ -219,7 +219,7 @@ func (u *Unit) execBlock(sts []*State, stmts []ast.Stmt) flow {
 		}
 		cur = next
 		u.root().paths += len(cur)
-		if len(cur) > 64 || u.root().paths > maxPaths*50 {
+		if len(cur) > 160 || u.root().paths > maxPaths*50 {
 			u.reject("path explosion (%d live states)", len(cur))
 			cur = cur[:1]
 		}
